@@ -43,8 +43,8 @@ SPEC = {
         "of the generated key table (C14_no_identical_inflight_questions), range slices included; remaining premises: a caller's own "
         "requests (slices) are pairwise different, and cache keys / lock keys are numbered injectively",
         "xxhash cache keys are treated as injective (no collisions between different requests)",
-        "the theorems speak about cache keys; 'identical request on the wire => identical cache key' is checked by the stress oracle only and currently fails for range "
-        "requests with time.Now()-derived bounds (known finding C14-range-cache-key-finer-than-request, regression of d06b876)",
+"the theorems speak about cache keys; 'identical request on the wire => identical cache key' is checked by the stress oracle only (it failed between "
+        "d06b876 and c5439fe: found here, fixed)",
         "in flight is measured at the client (RoundTrip start .. body closed): the server may still work on a request the client cancelled",
     ],
 }
